@@ -937,6 +937,57 @@ def check_family(S, fam, seed, batches, do):
                         if not ok or isinstance(m, torch.jit.ScriptModule):
                             S.fail(f"compile-copy/{fam.cls}/original-changed", dict(base, detail=why))
                 del src
+                # ---- three-step sequence: build (generated code as TorchScript / as fx modules) -> compile IN PLACE -> copy the original
+                #      python object, whose generated children are ScriptModules now: the copy must exist and compute the same function
+                if not compile_raised:
+                    for built_with_fx in (False, True):
+                        try:
+                            e3nn.set_optimization_defaults(jit_script_fx=not built_with_fx)
+                            mm = _build(fam, seed)
+                        except Exception:
+                            continue
+                        finally:
+                            _reset_defaults(e3nn)
+                        try:
+                            ref0 = {b: _run(mm, xs[b]) for b in batches}
+                            ejit.compile(mm)            # in_place=True
+                        except Exception:
+                            continue                    # single-step failures are reported above
+                        # torch refuses to pickle a python module that holds a ScriptModule child (torch.jit.save is the API); only
+                        # CodeGenMixin serialises its own generated children.  So the step applies when every ScriptModule inside `mm`
+                        # is generated code of a CodeGenMixin (TensorProduct and its subclasses, Linear, ReducedTensorProducts, Extract, ...)
+                        if isinstance(mm, torch.jit.ScriptModule):
+                            continue
+                        generated = set()
+                        for c in mm.modules():
+                            for nm in getattr(c, "__codegen__", []) or []:
+                                generated.add(id(getattr(c, nm, None)))
+                        foreign = [type(c).__name__ for c in mm.modules() if isinstance(c, torch.jit.ScriptModule) and id(c) not in generated
+                                   and not any(id(c) == id(sub) for g_ in [x for x in mm.modules() if id(x) in generated] for sub in g_.modules())]
+                        if foreign:
+                            ctx.count("skip:compile-in-place-then-copy:scripted-children:" + fam.cls)
+                            continue
+                        for cop in ("deepcopy", "pickle", "torchsave"):
+                            ctx.count("jit:compile-in-place-then-" + cop)
+                            ctx.case({"op": "compile-in-place-then-" + cop, "class": fam.cls, "cfg": fam.cfg, "built_with_fx": built_with_fx}, sample_every=31)
+                            try:
+                                m2 = _dt_copy(mm, cop)
+                            except Exception as e:
+                                tag = _tag(e)
+                                root = "pickle" if tag.startswith("unpicklable") else "copy-after-compile-in-place"
+                                S.fail(f"{root}/{fam.cls}/{tag}",
+                                       dict(base, op=f"compile(m) in place, then {cop}(m)", built_with_jit_script_fx=not built_with_fx, error=_tail(e),
+                                            how="m = build() [under set_optimization_defaults(jit_script_fx=...)]; e3nn.util.jit.compile(m); " + cop + "(m)"))
+                                continue
+                            for b in batches:
+                                try:
+                                    ok, why = _close(ref0[b], _run(m2, xs[b]))
+                                except Exception as e:
+                                    ok, why = False, "call failed: " + _tail(e)
+                                if not ok:
+                                    S.fail(f"copy-after-compile-in-place/{fam.cls}/mismatch",
+                                           dict(base, op=f"compile(m) in place, then {cop}(m)", built_with_jit_script_fx=not built_with_fx, batch=b, detail=why))
+                                    break
                 # ---- the same module in the OTHER floating dtype than the process default (m.to(float64) under float32 default and
                 #      vice versa): compile must still succeed and reproduce it (tracing inputs have to follow the MODULE's dtype)
                 other = torch.float64 if torch.get_default_dtype() == torch.float32 else torch.float32
